@@ -403,6 +403,34 @@ def rand_scheda(rng):
   return c
 
 
+def rand_scheda_faults(rng):
+  """round 11: as_completed with faults in the MIDDLE of the run (a worker dies / the clock passes the heartbeat threshold while a
+  task is in flight or between next_idle_worker and submit, a reply fails, the reply arrives behind set_exception): the
+  environment thread idles (tick 0) for a random number of steps first, so that the fault falls inside the loop."""
+  nworkers = rng.choice([1, 1, 2])
+  pw = [list(range(nworkers))]
+  if rng.random() < 0.3:
+    pw.append([rng.randrange(nworkers)])
+  nt = rng.randrange(1, 4)
+  threads = [dict(kind='pool', ops=[dict(op='as_completed', p=0, tasks=[rng.choice(['ok', 'ok', 'raise']) for _ in range(nt)],
+                                         take=rng.choice([None, None, None, 1]), ignore=rng.random() < 0.5)])]
+  if len(pw) > 1:
+    threads.append(dict(kind='pool', ops=[rand_sched_pool_op(rng, 1, pw[1]) for _ in range(rng.randrange(1, 3))]))
+  w = rng.randrange(nworkers)
+  idle = lambda a, b: [dict(op='tick', d=0) for _ in range(rng.randrange(a, b))]
+  fault = rng.choice(['die', 'die', 'stale', 'die-revive', 'stale-revive'])
+  ops = idle(8, 70)
+  ops.append(dict(op='die', w=w) if fault.startswith('die') else dict(op='tick', d=rng.choice([100, 200])))
+  if fault.endswith('revive'):
+    ops += idle(3, 40) + [dict(op='revive', w=w)]
+  threads.append(dict(kind='env', ops=ops))
+  # the transport: answers late (after its own idling), sometimes fails a reply
+  threads.append(dict(kind='env', ops=idle(0, 60) + [dict(op='deliver', k=0, fail=rng.random() < 0.15)
+                                                       for _ in range(rng.randrange(0, 30))]))
+  return dict(fam='scheda', nworkers=nworkers, pw=pw, thr=100, now=1000, mp=[rng.choice([1, 2]) for _ in range(nworkers)],
+              reg0=['alive'] * nworkers, threads=threads, sched=dict(kind='random', seed=rng.randrange(10**9), changes=3, horizon=80))
+
+
 def gen_cases(ctx):
   import os
   fams = os.environ.get('VERIF_C20_FAMILIES')          # development aid: restrict the families (default: all)
@@ -456,6 +484,9 @@ def _gen_cases(ctx):
   # --- scheda (round 6): orchestrate.as_completed under the scheduler, as the observed script of its primitive operations
   for _ in range(160 if quick else 3000):
     yield rand_scheda(rng)
+  # --- scheda with faults in the middle of the run (round 11; after everything else: earlier random streams unchanged)
+  for _ in range(220 if quick else 4000):
+    yield rand_scheda_faults(rng)
 
 
 # ----------------------------------------------------------------------------- real code
@@ -733,6 +764,15 @@ PROGRAM_POINTS = [
     'c.rSub.sleepCap', 'c.cAcq', 'c.cWait', 'r.strAcq', 'r.strRel', 'e.deliver.taskRaise',
     'e.shutdown', 'e.deliver.cancelled', 'e.deliver.shutdown',
     'c.start.submit', 'c.sSub.sleepAlive', 'c.sSub.disconnected', 'c.sSub.sleepCap']
+# round 11: program points of the controller of as_completed (Model/OwnerEnv.lean: `acPlan`; name = where the controller is > what it
+# does next) that every run must execute on the real code (family scheda); reached but too rare to promise: a.isAl.raced>fin.raised
+# (the reply arrives between the done() poll and set_exception), a.rel>workers, a.sub>poll, a.polled.failed>workers, a.next>acquired
+AC_POINTS = [
+    'a.start', 'a.alive1>workers', 'a.alive1>fin.noWorker', 'a.alive2>nextIdle', 'a.alive2>poll', 'a.next>submit0', 'a.next>poll',
+    'a.next>workers', 'a.sub>nextIdle', 'a.sub>submit1', 'a.sub>submit2', 'a.polled.queued>isAlive', 'a.polled.ok>poll',
+    'a.polled.ok>fin.closed', 'a.polled.ok>acquired', 'a.polled.failed>fin.raised', 'a.polled.failed>poll', 'a.isAl.alive>workers',
+    'a.isAl.alive>acquired', 'a.isAl.alive>poll', 'a.isAl.dead>workers', 'a.acq>release', 'a.acq>workers', 'a.rel>fin.ok']
+_VERDICTS = dict(n=0)      # disagreements / oracle failures seen in the main phase (a coverage guard must not mask them)
 _SCHEDULES = set()
 
 
@@ -795,6 +835,13 @@ def model_obs(case, resps):
 
 
 def compare(impl, model):
+  d = _compare(impl, model)
+  if d is not None:
+    _VERDICTS['n'] += 1
+  return d
+
+
+def _compare(impl, model):
   if model.get('skip'):
     return None
   if 'steps' in impl:
@@ -821,6 +868,13 @@ def compare(impl, model):
 # ----------------------------------------------------------------------------- oracle (the property itself)
 
 def oracle(case, obs):
+  w = _oracle(case, obs)
+  if w is not None:
+    _VERDICTS['n'] += 1
+  return w
+
+
+def _oracle(case, obs):
   if case['fam'] in ('sched', 'schedrun', 'schedc', 'scheda'):
     return oracle_sched(case, obs)
   return oracle_live(case, obs) if case['fam'] == 'live' else oracle_own(case, obs)
@@ -837,6 +891,13 @@ def oracle_sched(case, obs):
     return f"the run did not finish: {obs['outcome']} {obs.get('err')} blocked={obs.get('blocked')}"
   if obs['excs']:
     return f"a thread ended with an exception: {obs['excs']}"
+  if obs.get('ac_released_busy'):
+    # (round 11, F-C20-release-empty-set) ownership discipline behind "at most one pool owns a given worker": a pool does not give
+    # away a worker on which one of its own tasks is still running - as_completed's mid-run release is for the UNUSED workers
+    # (orchestrate.py:542).  Not in the letter of the statement; see known_findings (fixed) for what it does and does not violate.
+    b = obs['ac_released_busy'][0]
+    return (f"as_completed of pool {b['p']}: the mid-run release_all({b['arg']}) released workers {b['workers']} on which tasks of this "
+            f"as_completed were still running (an empty collection means 'all workers' to release_all)")
   ths, npools, nw = case['threads'], len(case['pw']), case['nworkers']
   steps, snaps = obs['steps'], obs['snaps']
   drivers = [set() for _ in range(npools)]          # threads that act for a pool
@@ -1274,6 +1335,14 @@ def extra(ctx):
     from harness.core import InfraError
     raise InfraError(f'C20 sched family missed program points {missing_pp}')
   import os
+  fams = os.environ.get('VERIF_C20_FAMILIES')
+  missing_ac = [pp for pp in AC_POINTS if pp not in _COVER.get('sched_program_points', {})]
+  ctx.notes.append(f'scheda: {len(AC_POINTS) - len(missing_ac)}/{len(AC_POINTS)} promised program points of the as_completed controller executed '
+                   f'on the real code; all a.* points seen: {sorted(k for k in _COVER.get("sched_program_points", {}) if k.startswith("a."))}')
+  if (missing_ac and (not fams or 'scheda' in fams.split(',')) and not _VERDICTS['n'] and not ctx.extra_disagreements
+      and not ctx.extra_oracle_failures):
+    from harness.core import InfraError
+    raise InfraError(f'C20 scheda family missed program points of the as_completed controller {missing_ac}')
   missing = [b for b in LIVE_BRANCHES if b not in _COVER.get('live_model_branches', {})]
   if missing and not os.environ.get('VERIF_C20_FAMILIES'):
     from harness.core import InfraError
